@@ -7,6 +7,7 @@ from ..evalfn import SELF
 from ..source import AnalysisError
 from ..sym import canon
 from .common import over_all_children, ALGOS, BACKTEST, CORE, G, Roles, dominates, fld, guard_subset, has_lit, plain, short
+from . import core_rules
 from .core_rules import bound_args, mentions_field
 
 
@@ -199,6 +200,13 @@ def add_children_rules(chk, pid):
     host = "Node._add_children"
     chk.site()
     dc = ("param", "dc")
+    if pid == "C05":
+        attach = [w for w in S.events if w.kind == "write" and w.field == "parent" and canon(w.value) == canon(SELF)]
+        chk.need(attach, "%s no longer sets the child's parent" % host)
+        a = attach[-1]
+        ip = core_rules.pushed_into_subtree(chk, S, a.obj, fld(SELF, "integer_positions"), "integer_positions", a)
+        chk.ob("C19.R1", ip is not None, CORE, host, "attach:integer-positions", "an attached child inherits the position mode of the node it is attached to", where=a.where,
+               expected="self.integer_positions handed to a method of the child that stores it on the child and on every node below it")
     if pid == "C19":
         dup = [e for e in S.raises if any(p and a[0] == "in" for a, p in e.guard)]
         kinds = set()
@@ -215,18 +223,7 @@ def add_children_rules(chk, pid):
         chk.need(attach, "%s no longer sets the child's parent" % host)
         a = attach[-1]
         c = a.obj
-        sr = [e for e in S.calls("_set_root") if canon(e.recv) == canon(c)]
-        ok = bool(sr) and sr[0].args and sr[0].args[0][0] == "fld" and sr[0].args[0][2] == "root" and canon(sr[0].args[0][1]) == canon(SELF) and guard_subset(sr[0].guard, a.guard)
-        chk.ob("C19.R1", ok, CORE, host, "attach:set-root", "an attached child (and its subtree) takes over the parent's root", where=a.where, expected="c._set_root(self.root)")
-        ip = [e for e in S.calls("use_integer_positions") if canon(e.recv) == canon(c)]
-        ok = bool(ip) and ip[0].args and canon(ip[0].args[0]) == canon(fld(SELF, "integer_positions")) and guard_subset(ip[0].guard, a.guard)
-        chk.ob("C19.R1", ok, CORE, host, "attach:integer-positions", "an attached child inherits the position mode of the node it is attached to", where=a.where,
-               expected="c.use_integer_positions(self.integer_positions)", found=short(ip[0].args[0]) if ip and ip[0].args else "no call", sample={"arg": short(ip[0].args[0]) if ip and ip[0].args else None})
-        st = [e for e in S.events if e.kind == "store" and e.base[0] == "fld" and e.base[2] == "children"]
-        ap = [e for e in S.events if e.kind == "call" and e.name == "append" and e.recv is not None and e.recv[0] == "fld" and e.recv[2] == "_childrenv"]
-        ok = bool(st) and bool(ap) and canon(st[0].value) == canon(c) and canon(ap[0].args[0]) == canon(c) and set(plain(st[0].guard)) == set(plain(ap[0].guard)) and \
-            st[0].index[0] == "fld" and st[0].index[2] == "name" and canon(st[0].index[1]) == canon(c)
-        chk.ob("C19.R1", ok, CORE, host, "attach:children-and-shadow-list", "the children dict and its value list are updated together, keyed by the child's name", where=a.where)
+        attach_obligations(chk, S, a, host, "C19.R1")
         sc = [e for e in S.events if e.kind == "call" and e.name == "append" and e.recv is not None and e.recv[0] == "fld" and e.recv[2] == "_strat_children"]
         hs = [w for w in S.writes("_has_strat_children", SELF) if canon(w.value) == canon(sym.TRUE)]
         ok = bool(sc) and bool(hs) and any(p and a[0] == "call" and a[1] == "isinstance" and a[2][1] == ("class", "StrategyBase") for a, p in sc[0].guard)
@@ -256,47 +253,174 @@ def add_children_rules(chk, pid):
                where=fi.where, expected="c = deepcopy(c) before c.name / c.parent are written", found="%d writes on child objects" % len(dcs))
 
 
+def declared_children_flag(chk):
+    """After construction the node knows whether the caller declared children up front (setup limits the universe to them exactly then): judged
+    on the state the constructor ends in, whichever of __init__ and its registration helper sets the flag."""
+    from .common import GX, final_value, lits
+    fi = chk.prog.func(CORE, "Node", "__init__")
+    S = chk.summary(CORE, "Node", "__init__", host="Node")
+    host = "Node.__init__"
+    chk.site()
+    children = ("param", "children")
+    none_c = canon(("isnone", children))
+    some = canon(("cmp", ">=", ("call", "len", (children,), ()), sym.ONE))
+    flag = "_original_children_are_present"
+    for label, scen, want in (("none", ((none_c, True),), False), ("some", ((none_c, False), (some, True)), True), ("empty", ((none_c, False), (some, False)), False)):
+        verdicts = []
+        for st, _ in S.exits:
+            g = sym.sat(tuple(lits(st.guard)) + scen)
+            if sym.inconsistent(g):
+                continue
+            v = final_value(st, SELF, flag)
+            for cg, leaf, raws in sym.split_cases(sym.restrict(v, g), raw=True):
+                gg = GX(st, tuple(cg) + scen, raws)
+                if sym.inconsistent(gg):
+                    continue
+                leaf = canon(sym.restrict(leaf, gg))
+                if leaf in (canon(sym.TRUE), canon(sym.FALSE)):
+                    verdicts.append(leaf == canon(sym.TRUE))
+                elif sym.lit_holds(gg, leaf, True):
+                    verdicts.append(True)
+                elif sym.lit_holds(gg, leaf, False):
+                    verdicts.append(False)
+                else:
+                    verdicts.append(None)
+        ok = bool(verdicts) and all(x is want for x in verdicts)
+        if label == "none":
+            _late_children_do_not_declare(chk)
+        chk.ob("C19.R1", ok, CORE, host, "declared-children-flag:%s" % label,
+               "a node remembers that children were declared up front exactly when a non-empty collection was passed to its constructor (an empty list or dict declares nothing)",
+               where=fi.where, expected=str(want), found=", ".join(str(x) for x in verdicts)[:120])
+
+
+def _late_children_do_not_declare(chk):
+    """children attached after construction (dc=False: a node created with parent=..., a lazily created child) are not declared children"""
+    A = chk.summary(CORE, "Node", "_add_children", host="Node", no_inline=("_set_root", "use_integer_positions"))
+    dc = ("param", "dc")
+    bad = [w for w in A.events if w.kind == "write" and w.field == "_original_children_are_present" and canon(w.value) != canon(sym.FALSE)
+           and not sym.inconsistent(sym.sat(tuple(G(w)) + ((dc, False),)))]
+    chk.ob("C19.R1", not bad, CORE, "Node._add_children", "late-children-do-not-declare",
+           "attaching a node later (dc=False) never turns a node into one that declared its children: its universe stays unrestricted", where=bad[0].where if bad else A.fn.where,
+           expected="the flag is only set for the children handed to the constructor", found="; ".join(sym.fmt_guard(plain(w.guard))[:80] for w in bad))
+
+
+def attach_obligations(chk, S, a, host, rule, pid="C19"):
+    """The companions of `c.parent = self` (event a): root and position mode pushed into the subtree, children dict and value list updated together."""
+    c = a.obj
+    sr = core_rules.pushed_into_subtree(chk, S, c, fld(SELF, "root"), "root", a)
+    chk.ob(rule, sr is not None, CORE, host, "attach:set-root", "an attached child (and its subtree) takes over the parent's root", where=a.where,
+           expected="self.root handed to a method of the child that stores it on the child and on every node below it")
+    ip = core_rules.pushed_into_subtree(chk, S, c, fld(SELF, "integer_positions"), "integer_positions", a)
+    ipc = [e for e in S.calls("use_integer_positions") if canon(e.recv) == canon(c)]
+    chk.ob(rule, ip is not None, CORE, host, "attach:integer-positions", "an attached child inherits the position mode of the node it is attached to", where=a.where,
+           expected="self.integer_positions handed to a method of the child that stores it on the child and on every node below it",
+           found=short(ipc[0].args[0]) if ipc and ipc[0].args else "no such call", sample={"arg": short(ipc[0].args[0]) if ipc and ipc[0].args else None})
+    st = [e for e in S.events if e.kind == "store" and e.base[0] == "fld" and e.base[2] == "children" and canon(e.value) == canon(c)]
+    ap = [e for e in S.events if e.kind == "call" and e.name == "append" and e.recv is not None and e.recv[0] == "fld" and e.recv[2] == "_childrenv" and e.args and canon(e.args[0]) == canon(c)]
+    ok = bool(st) and bool(ap) and set(plain(st[0].guard)) == set(plain(ap[0].guard)) and \
+        st[0].index[0] == "fld" and st[0].index[2] == "name" and canon(st[0].index[1]) == canon(c)
+    chk.ob(rule, ok, CORE, host, "attach:children-and-shadow-list", "the children dict and its value list are updated together, keyed by the child's name", where=a.where)
+
+
 def lazy_child_rules(chk, pid):
+    """Scenario-based: the requested name is a declared lazy child / an unknown name; in both the node is attached for real, set up and caught up."""
     fi = chk.prog.func(CORE, "StrategyBase", "_create_child_if_needed")
-    S = chk.summary(CORE, "StrategyBase", "_create_child_if_needed", host="StrategyBase", no_inline=("_add_children", "setup", "update"))
+    S = chk.summary(CORE, "StrategyBase", "_create_child_if_needed", host="StrategyBase", no_inline=("_add_children", "setup", "update", "_set_root", "use_integer_positions"))
     host = "StrategyBase._create_child_if_needed"
     chk.site()
     child = ("param", "child")
-    add = S.calls("_add_children")
-    st = [e for e in S.events if e.kind == "call" and e.name == "setup"]
-    up = [e for e in S.events if e.kind == "call" and e.name == "update" and e.recv != SELF]
-    chk.need(add and st and up, "%s no longer attaches, sets up and updates the new child" % host)
-    c = st[0].recv
-    def is_pop(x, default_new):
-        return (x[0] == "mcall" and x[2] == "pop" and x[1][0] == "fld" and x[1][2] == "_lazy_children" and len(x[3]) == 2 and canon(x[3][0]) == canon(child)
-                and ((x[3][1][0] == "new" and x[3][1][1] == "Security") if default_new else canon(x[3][1]) == canon(("none",))))
+    lazy = fld(SELF, "_lazy_children")
+    in_lazy = canon(("cmp", "in", child, lazy))
+    in_children = canon(("cmp", "in", child, fld(SELF, "children")))
+    DECL, RAISE = ("declared-lazy-child",), ("raise",)
+
+    def is_pop(x):
+        return x[0] == "mcall" and x[2] == "pop" and x[1][0] == "fld" and x[1][2] == "_lazy_children" and len(x[3]) >= 1 and canon(x[3][0]) == canon(child)
 
     def is_default(x):
-        return x[0] == "new" and x[1] == "Security" and len(x[2]) == 1 and canon(x[2][0]) == canon(child)
-    okc = is_pop(c, True)
-    if not okc and c[0] == "ite":
-        # c = pop(child, None); if c is None: c = Security(child)     (declared children are never None)
-        cond, a, b = c[1], c[2], c[3]
-        cc = canon(cond)
-        if cc[0] == "isnone" and is_pop(cc[1], False):
-            okc = is_default(a) and is_pop(b, False)
-        elif cc[0] == "not" and cc[1][0] == "isnone" and is_pop(cc[1][1], False):
-            okc = is_default(b) and is_pop(a, False)
-    chk.ob("C19.R3", okc, CORE, host, "lazy-child-source", "the child is the declared lazy child of that name, or a default Security", where=fi.where, found=short(c, 120))
-    la = [w for w in S.events if w.kind == "write" and w.field == "lazy_add" and canon(w.obj) == canon(c)]
-    ok = bool(la) and canon(la[0].value) == canon(sym.FALSE) and la[0].seq < add[0].seq
-    chk.ob("C19.R3", ok, CORE, host, "lazy-flag-cleared", "the lazy flag is cleared before the child is attached (so that it is attached for real)", where=fi.where)
-    ab = bound_args(add[0], chk.prog)
-    ok = canon(ab.get("dc", sym.NONE)) == canon(sym.FALSE) and add[0].seq < st[0].seq < up[0].seq
-    chk.ob("C19.R3", ok, CORE, host, "attach-setup-update-order", "the child is attached (not copied), then set up, then brought up to date", where=fi.where,
-           expected="_add_children([c], dc=False) -> c.setup(...) -> c.update(now)", found=", ".join(e.name for e in S.events if e.kind == "call")[:120])
-    ok = st[0].args and st[0].args[0][0] == "fld" and st[0].args[0][2] == "_universe" and "**" in (st[0].kwargs or {})
-    chk.ob("C19.R3", ok, CORE, host, "lazy-setup-args", "the lazily created child is set up with the strategy's universe and the stored settings", where=st[0].where)
-    ok = up[0].args and up[0].args[0][0] == "fld" and up[0].args[0][2] == "now" and canon(up[0].recv) == canon(c)
-    chk.ob("C19.R3", ok, CORE, host, "lazy-catch-up", "the new child is updated to the strategy's current date", where=up[0].where)
-    g = G(add[0])
-    ok = sym.lit_holds(g, ("in", child, fld(SELF, "children")), False)
-    chk.ob("C19.R3", ok, CORE, host, "only-when-missing", "nothing is created for an existing child", where=fi.where)
+        return (x[0] == "new" and x[1] == "Security" and len(x[2]) == 1 and canon(x[2][0]) == canon(child)
+                and all(k != "lazy_add" or canon(v) == canon(sym.FALSE) for k, v in x[3]))
+
+    def resolver(declared):
+        def truth(cond):
+            cc = canon(cond)
+            if cc == in_lazy:
+                return declared
+            if cc[0] == "not":
+                r = truth(cc[1])
+                return None if r is None else (not r)
+            if cc[0] == "isnone":
+                r = resolve(cc[1])
+                if r == DECL or (isinstance(r, tuple) and r and r[0] == "new"):
+                    return False  # declared children are nodes, never None
+                if canon(r) == canon(sym.NONE):
+                    return True
+            return None
+
+        def resolve(v):
+            if not isinstance(v, tuple) or not v:
+                return v
+            if is_pop(v):
+                if declared:
+                    return DECL
+                return resolve(v[3][1]) if len(v[3]) == 2 else RAISE
+            if v[0] == "sub" and canon(v[1]) == canon(lazy) and canon(v[2]) == canon(child):
+                return DECL if declared else RAISE
+            if v[0] == "ite" and len(v) == 4:
+                r = truth(v[1])
+                if r is True:
+                    return resolve(v[2])
+                if r is False:
+                    return resolve(v[3])
+            return v
+        return resolve
+
+    n_ok = 0
+    for declared in (True, False):
+        label = "declared" if declared else "default"
+        resolve = resolver(declared)
+        scen = ((in_lazy, declared), (in_children, False))
+
+        def live(e):
+            return not sym.inconsistent(sym.sat(tuple(G(e)) + scen))
+
+        def is_the_child(v):
+            r = resolve(v)
+            return r == DECL if declared else (isinstance(r, tuple) and is_default(r))
+        st = [e for e in S.events if e.kind == "call" and e.name == "setup" and e.recv is not None and live(e) and is_the_child(e.recv)]
+        up = [e for e in S.events if e.kind == "call" and e.name == "update" and e.recv is not None and e.recv != SELF and live(e) and is_the_child(e.recv)]
+        add = []
+        for e in S.calls("_add_children"):
+            if not live(e):
+                continue
+            ab = bound_args(e, chk.prog)
+            ch = ab.get("children")
+            if ch is not None and ch[0] == "list" and len(ch) == 2 and is_the_child(ch[1]) and canon(ab.get("dc", sym.TRUE)) == canon(sym.FALSE):
+                add.append(e)
+        direct = [w for w in S.events if w.kind == "write" and w.field == "parent" and canon(w.value) == canon(SELF) and live(w) and is_the_child(w.obj)]
+        ok = bool(st) and bool(up) and bool(add or direct)
+        chk.ob("C19.R3", ok, CORE, host, "lazy-child-source:%s" % label,
+               "the node that is attached, set up and updated is the declared lazy child of that name when there is one, and a default Security otherwise", where=fi.where,
+               found="setup on %s" % ", ".join(short(e.recv, 80) for e in S.events if e.kind == "call" and e.name == "setup")[:200])
+        if not ok:
+            continue
+        n_ok += 1
+        att = (add or direct)[0]
+        if direct and not add:
+            attach_obligations(chk, S, direct[0], host, "C19.R3")
+        if declared:
+            la = [w for w in S.events if w.kind == "write" and w.field == "lazy_add" and live(w) and is_the_child(w.obj) and canon(w.value) == canon(sym.FALSE) and w.seq < att.seq]
+            chk.ob("C19.R3", bool(la), CORE, host, "lazy-flag-cleared", "the lazy flag of a declared child is cleared before it is attached (so that it is attached for real)", where=fi.where)
+        ok = att.seq < st[0].seq < up[0].seq
+        chk.ob("C19.R3", ok, CORE, host, "attach-setup-update-order:%s" % label, "the child is attached (not copied), then set up, then brought up to date", where=fi.where,
+               expected="attach -> c.setup(...) -> c.update(now)", found=", ".join(e.name for e in S.events if e.kind == "call")[:120])
+        ok = st[0].args and st[0].args[0][0] == "fld" and st[0].args[0][2] == "_universe" and "**" in (st[0].kwargs or {})
+        chk.ob("C19.R3", ok, CORE, host, "lazy-setup-args:%s" % label, "the lazily created child is set up with the strategy's universe and the stored settings", where=st[0].where)
+        ok = up[0].args and up[0].args[0][0] == "fld" and up[0].args[0][2] == "now"
+        chk.ob("C19.R3", ok, CORE, host, "lazy-catch-up:%s" % label, "the new child is updated to the strategy's current date", where=up[0].where)
+        ok = sym.lit_holds(G(att), ("in", child, fld(SELF, "children")), False)
+        chk.ob("C19.R3", ok, CORE, host, "only-when-missing:%s" % label, "nothing is created for an existing child", where=fi.where)
+    chk.need(n_ok or True, "")
 
 
 def setup_from_parent_rules(chk, pid):
